@@ -25,12 +25,28 @@ def _bound(x):
     return None if isinstance(x, MV) or x is None else int(x)
 
 
-def build(dims):
+STORES = ('F', 'T', 'int', 'npidx', 'strided')
+
+
+def build(dims, store=None):
+    """store: how the same numbers are laid out / typed -- None: C-contiguous float64; 'F': Fortran order; 'T': a
+    transposed view; 'int': integer values (errors stay float); 'strided': every other element of a larger buffer;
+    'npidx' only changes how the slice bounds are spelled (numpy integers)."""
     from valjean.eponine.dataset import Dataset
     shape = tuple(d['n'] for d in dims)
     size = int(np.prod(shape))
     value = np.arange(size, dtype=float).reshape(shape)
     error = value + 0.5
+    if store == 'F':
+        value, error = np.asfortranarray(value), np.asfortranarray(error)
+    elif store == 'T':
+        value, error = np.ascontiguousarray(value.T).T, np.ascontiguousarray(error.T).T
+    elif store == 'int':
+        value = value.astype(np.int64)
+    elif store == 'strided':
+        big_v, big_e = np.zeros(shape[:-1] + (2 * shape[-1],)), np.zeros(shape[:-1] + (2 * shape[-1],))
+        big_v[..., ::2], big_e[..., ::2] = value, error
+        value, error = big_v[..., ::2], big_e[..., ::2]
     if any(d['kind'] == 'none' for d in dims):
         bins = None
     else:
@@ -60,13 +76,15 @@ def _cells_per_dim(res_value, shape):
 def observe(case):
     """Run one case on the implementation; returns (obs, problem).  problem = None or text."""
     dims = case['dims']
-    ds = build(dims)
+    store = case.get('store')
+    ds = build(dims, store)
     before = digest(ds)
     shape = ds.value.shape
     try:
         if case['op'] == 'slice':
             # a unit step can be omitted or written out: same selection (d['step'] is None or 1, default None)
-            sl = tuple(slice(_bound(d['a']), _bound(d['b']), d.get('step')) for d in dims)
+            npi = (lambda x: x if x is None else np.int64(x)) if store == 'npidx' else (lambda x: x)
+            sl = tuple(slice(npi(_bound(d['a'])), npi(_bound(d['b'])), d.get('step')) for d in dims)
             res = ds[sl if len(sl) > 1 else sl[0]]
         else:
             res = ds.squeeze()
@@ -128,6 +146,8 @@ def _cls(x, n):
 def vkey(case, problem, exp=None, obs=None):
     """Finding class: operation + what went wrong + the classes of the offending dimensions only."""
     how = 'raise' if problem and problem.startswith('raised') else 'wrong'
+    if case.get('store'):
+        how += '/store-' + case['store']
     if case['op'] == 'squeeze':
         kinds = sorted(set(d['kind'] for d in case['dims']))
         return 'C09/squeeze/%s/%s' % ('+'.join(kinds), how)
@@ -213,7 +233,7 @@ def run_c09(ctx):
              'and bin numbers; code->spec: seeded random cases up to 4-d validated by TLC against SliceTrace.tla. '
              'distinct_nontrivial counts distinct (op, per-dim n/kind/start-class/stop-class) cases that keep at least one '
              'cell (slice) or drop at least one dimension (squeeze).')
-    ctx.assume('unit-step slices only; numbers are small integers stored as float64 (exact)')
+    ctx.assume('unit-step slices only; numbers are small integers (exact) stored as float64, C / Fortran order, transposed or strided views, or int64')
     wd = tlc.workdir('c09')
     configs = [('1d', _consts(ctx.pick(5, 6), ctx.pick(7, 9), 1, ['slice', 'squeeze'])),
                ('2d', _consts(2, ctx.pick(2, 3), 2, ['slice'])),
@@ -236,6 +256,8 @@ def run_c09(ctx):
             variants = [case]
             if case['op'] == 'slice':
                 variants.append(dict(case, dims=[dict(d, step=1) for d in case['dims']]))
+            # the same numbers laid out / typed differently (one more variant per state, in rotation)
+            variants.append(dict(case, store=STORES[n_replayed % len(STORES)]))
             for vcase in variants:
                 obs, problem = observe(vcase)
                 if problem or not agrees(exp, obs, vcase['op']):
@@ -275,6 +297,8 @@ def run_c09(ctx):
             dims = [dict(n=rng.choice([1, 1, 2, 3]), kind='none' if kind_none else rng.choice(['edges', 'centres']),
                          a=None, b=None) for _ in range(nd)]
         case = dict(op=op, dims=dims)
+        if rng.random() < 0.4:
+            case['store'] = rng.choice(STORES)
         obs, problem = observe(case)
         if problem:
             ctx.violation(vkey(case, problem), problem, case, module='conf_slice')
